@@ -1267,9 +1267,11 @@ def _isclose_entry(x, y, rtol, atol, equal_nan):
     if isnan_scalar(x) or isnan_scalar(y):
         return bool(equal_nan and isnan_scalar(x) and isnan_scalar(y))
     x, y = as_sym_entry(x), as_sym_entry(y)
-    if x.p.has_I() or y.p.has_I():
-        raise EngineError("np.isclose / np.allclose on complex symbolic data")
     d = x - y
+    if x.p.has_I() or y.p.has_I():
+        # complex: |d|^2 <= (atol + rtol |y|)^2 with |y| the engine's modulus symbol (m >= 0, m^2 == y conj(y))
+        lim = Sym.of(atol) + Sym.of(rtol) * abs(y)
+        return bool((d * d.conjugate()).real <= lim * lim)
     if y.is_const():
         lim = Sym.of(atol) + Sym.of(rtol) * Sym.of(abs(y.const()))
     else:
